@@ -410,6 +410,20 @@ CHEAP_TRANSFORMS = ["none", "flip", "shuffle", "or", "xor", "lift",
                     "xorcomp", "majcomp"]
 
 
+def _ints(toks):
+    return [int(t) for t in toks if str(t).lstrip("-").isdigit()]
+
+
+# number of variables of the sub-commands for which it is a closed form of
+# the arguments (used to size an explicit compression graph)
+KNOWN_COUNT = {
+    "and": lambda a: sum(_ints(a)[:2]), "or": lambda a: sum(_ints(a)[:2]),
+    "parity": lambda a: _ints(a)[0], "ptn": lambda a: _ints(a)[0],
+    "php": lambda a: (_ints(a)[0] * _ints(a)[1]
+                      if len(_ints(a)) >= 2 and len(a) == 2 else None),
+}
+
+
 def formula_tokens(rng, name, files=None):
     r = FORMULAS[name](rng, files or {})
     if r is None:
@@ -462,8 +476,19 @@ def command_line(rng, tool="cnfgen", files=None, want_random=None,
         if seed is not None:
             argv += [rng.choice(["--seed", "-S"]), str(seed)]
         argv += toks
-        for t in chain:
+        nvars = KNOWN_COUNT[name](toks) if name in KNOWN_COUNT else None
+        for ti, t in enumerate(chain):
             targs, trnd = TRANSFORMS[t](rng)
+            if ti == 0 and t in ("xorcomp", "majcomp") and nvars and \
+                    rng.random() < 0.5:
+                # the mapping given as a bipartite graph with one left
+                # vertex per variable of the formula
+                R = rng.randint(2, 5)
+                targs = rng.choice([["complete", nvars, R],
+                                    ["glrd", nvars, R, rng.randint(1, 2)],
+                                    ["glrp", nvars, R, 0.5],
+                                    ["shift", nvars, R, 0, 1]])
+                trnd = targs[0] in ("glrd", "glrp")
             argv += ["-T", t] + [str(x) for x in targs]
             rnd = rnd or trnd
         if want_random is not None and rnd != want_random:
